@@ -25,7 +25,7 @@ def stub_rotated(it, func, env, node):
     selfv = env.get(func.params[0])
     from ..ctx import grad_dim
 
-    b, s = env.get("basis"), env.get("sample")
+    b, s = env.get(func.params[1]), env.get(func.params[2])  # positional: (self, basis, sample)
     bt = b.term if isinstance(b, VTens) and b.term is not None else T.sym("?b")
     st = s.term if isinstance(s, VTens) and s.term is not None else T.sym("?s")
     out = []
